@@ -101,6 +101,7 @@ func c19GenReal(r *rand.Rand, tier string) *c19Case {
 			rq.Headers = hs
 		}
 	}
+	c19FixShortWants(c)
 	return c
 }
 
@@ -1075,9 +1076,23 @@ func c19RunE2E(c *c19Case) (res Result) {
 			if relayed {
 				fail(i, "the client got an upstream answer although no upstream logged the request")
 			}
+			attempted := false // a target was handed to an attempt
+			for _, t := range picks {
+				if t != nil {
+					attempted = true
+				}
+			}
 			switch {
 			case handler != 0 || provEnded || wsArtefact || c.Kind == 3:
 				// the client sees what the configured handler / the provider's error says
+			case !attempted:
+				// The balancer had no target to offer: nothing was attempted.  The property's 502 clause is
+				// about attempts that failed ("502 only when every attempt failed"); which refusal answers
+				// a request that could not be attempted at all is left open — it must be a refusal (5xx),
+				// and no upstream is hit (len(hits) == 0 here).
+				if rr.Code < 500 || rr.Code > 599 {
+					fail(i, fmt.Sprintf("no target could be attempted and the client got %d, not a 5xx refusal", rr.Code))
+				}
 			case rr.Code == http.StatusBadGateway:
 				tagset["e2e-502"] = true
 			default:
@@ -1131,6 +1146,12 @@ func c19RunE2E(c *c19Case) (res Result) {
 			if h.uri != pathq {
 				tagset["e2e-rewritten"] = true
 				nontrivial = true
+				if len(rq.URI) < 2 {
+					tagset["e2e-rewritten-root-or-empty-target"] = true
+				}
+				if len(rq.URI) > 1000 {
+					tagset["e2e-rewritten-long-target"] = true
+				}
 			}
 		}
 		if len(wants) == 0 && len(rules) == 0 {
@@ -1280,6 +1301,9 @@ func c19GenCap(r *rand.Rand, allowSlash bool) string {
 			a = "Q"
 		}
 		sb.WriteString(a)
+	}
+	if r.Intn(40) == 0 {
+		sb.WriteString(c19GenLong(r, allowSlash)) // rare size class: a capture of 63 … 8200 bytes
 	}
 	return sb.String()
 }
@@ -1449,6 +1473,131 @@ func c19GenRule(r *rand.Rand, j int) c19RuleGen {
 	}
 }
 
+// ---- rules that match the SHORTEST request targets ("", "/", "/?", "/a") and everything else too
+//
+// The marker rules above all need a literal of several bytes, so no generated target shorter than
+// that is ever rewritten.  These shapes close the size class: catch-all rules (alone in their rule
+// set: they overlap with everything) and exact rules for the root / the empty target (disjoint from
+// every marker rule, so they are appended to ordinary rule sets).  `in` is what rewriteURL matches
+// against: the origin-form target, or for an absolute-form target what follows the authority
+// ("" for `GET http://host HTTP/1.1`).  The expectation is written down per shape, by hand, from
+// the documented meaning of the rule (`*` = any run of bytes, `^` = start, implicit end anchor).
+type c19ShortShape struct {
+	pat   string
+	tmpls []string
+	excl  bool // overlaps with other rules: only as the single rule of a set
+	apply func(tmpl, in string) (string, bool)
+}
+
+var c19ShortShapes = []c19ShortShape{
+	{"/*", []string{"/app/$1", "/a$1", "/v2/$1/end", "/app/$1"}, true, func(t, in string) (string, bool) {
+		k := strings.Index(in, "/") // leftmost slash; the star takes the rest
+		if k < 0 {
+			return "", false
+		}
+		return c19Subst(t, in[k+1:]), true
+	}},
+	{"^/*", []string{"/app/$1", "/a$1", "/d$1/$1"}, true, func(t, in string) (string, bool) {
+		if !strings.HasPrefix(in, "/") {
+			return "", false
+		}
+		return c19Subst(t, in[1:]), true
+	}},
+	{"*", []string{"/all$1", "/all$1$1"}, true, func(t, in string) (string, bool) { return c19Subst(t, in), true }},
+	{"^*", []string{"/all$1"}, true, func(t, in string) (string, bool) { return c19Subst(t, in), true }},
+	{"/", []string{"/index.html", "/dir/index?from=slash"}, true, func(t, in string) (string, bool) { return t, strings.HasSuffix(in, "/") }},
+	{"", []string{"/fixed"}, true, func(t, in string) (string, bool) { return t, true }},
+	{"^/", []string{"/index.html", "/home?from=root", "/$1"}, false, func(t, in string) (string, bool) { return t, in == "/" }},
+	{"^", []string{"/root", "/root?empty=1"}, false, func(t, in string) (string, bool) { return t, in == "" }},
+	{"^/?*", []string{"/q?$1", "/search/$1"}, false, func(t, in string) (string, bool) {
+		if !strings.HasPrefix(in, "/?") {
+			return "", false
+		}
+		return c19Subst(t, in[2:]), true
+	}},
+}
+
+func c19ShortShapeOf(pat string) *c19ShortShape {
+	for k := range c19ShortShapes {
+		if c19ShortShapes[k].pat == pat {
+			return &c19ShortShapes[k]
+		}
+	}
+	return nil
+}
+
+// by-construction expectation for a request target when short-target rules are in force: the result
+// of the (only) short rule that matches `in`; ok = false when none does
+func c19ShortWant(rules []c19Rule, in string) (want string, rule int, ok bool) {
+	for j, ru := range rules {
+		if sh := c19ShortShapeOf(ru.Pat); sh != nil {
+			if w, m := sh.apply(ru.Tmpl, in); m {
+				return w, j + 1, true
+			}
+		}
+	}
+	return "", 0, false
+}
+
+// sets Want / Rule of every request a short-target rule applies to (after the request targets are
+// final: the absolute-form and real-server adjustments change what is matched)
+func c19FixShortWants(c *c19Case) {
+	if c.Ctor == 1 || c.Kind == 3 {
+		return
+	}
+	for _, st := range c.Steps {
+		if rq := st.Req; rq != nil {
+			if w, j, ok := c19ShortWant(c.Rules, rq.URI); ok {
+				rq.Want, rq.Rule = []string{w}, j
+			} else if rq.Rule > 0 && rq.Rule <= len(c.Rules) && c19ShortShapeOf(c.Rules[rq.Rule-1].Pat) != nil {
+				// an expectation made for an earlier form of the target (the real-server kind turns a
+				// path-less absolute-form target into "/"): no short rule applies to the final one
+				u := rq.URI
+				if !strings.HasPrefix(u, "/") {
+					u = "/" + u
+				}
+				rq.Want, rq.Rule = []string{u}, 0
+			}
+		}
+	}
+}
+
+// very short and very long request targets (rare size classes of the matched string)
+func c19GenShortTarget(r *rand.Rand, generic bool) string {
+	pool := []string{"/", "/", "/", "/?", "/?x=1", "/?a=1&b=/", "/a", "/a/", "/ab", "/%2F", "/a?b", "/~", "/a/b", "/?/", "/x/"}
+	if generic && r.Intn(3) == 0 {
+		u := "/" + c19GenCap(r, true) + c19GenQuery(r)
+		if r.Intn(4) == 0 {
+			u = "/" + c19GenLong(r, true) + c19GenQuery(r)
+		}
+		return u
+	}
+	return pool[r.Intn(len(pool))]
+}
+
+// a run of unreserved bytes around the sizes at which buffers and "fast paths" change: 63/64/65,
+// 255/256/257, 1 KiB, 4 KiB, 8 KiB
+func c19GenLong(r *rand.Rand, allowSlash bool) string {
+	n := []int{63, 64, 65, 255, 256, 257, 1023, 1025, 2049, 4095, 4097, 8200}[r.Intn(12)]
+	atoms := []string{"L", "o", "n", "g", "-", "0", "/"}
+	if !allowSlash {
+		atoms = atoms[:6]
+	}
+	var sb strings.Builder
+	for sb.Len() < n {
+		sb.WriteString(atoms[r.Intn(len(atoms))])
+	}
+	s := strings.ReplaceAll(sb.String()[:n], "//", "/_")
+	// like every capture: no slash at either end (a rewritten target must not begin with "//")
+	if strings.HasPrefix(s, "/") {
+		s = "L" + s[1:]
+	}
+	if strings.HasSuffix(s, "/") {
+		s = s[:len(s)-1] + "g"
+	}
+	return s
+}
+
 var c19Methods = []string{"GET", "GET", "GET", "POST", "POST", "PUT", "DELETE", "PATCH", "HEAD", "OPTIONS", "PROPFIND"}
 
 func c19GenBytes(r *rand.Rand, tier string) []byte {
@@ -1547,6 +1696,23 @@ func c19GenE2E(r *rand.Rand, tier string, weird bool) *c19Case {
 		gens = append(gens, g)
 		c.Rules = append(c.Rules, g.rule)
 	}
+	// rules for the shortest targets: a catch-all rule alone, or exact root / empty-target rules beside
+	// the marker rules
+	short := 0
+	if !weird {
+		switch r.Intn(8) {
+		case 0:
+			short = 1
+			sh := c19ShortShapes[r.Intn(6)]
+			gens, c.Rules = nil, []c19Rule{{sh.pat, sh.tmpls[r.Intn(len(sh.tmpls))]}}
+		case 1:
+			short = 2
+			for _, k := range r.Perm(3)[:1+r.Intn(3)] {
+				sh := c19ShortShapes[6+k]
+				c.Rules = append(c.Rules, c19Rule{sh.pat, sh.tmpls[r.Intn(len(sh.tmpls))]})
+			}
+		}
+	}
 	if weird {
 		gens = nil
 		switch r.Intn(6) {
@@ -1568,7 +1734,7 @@ func c19GenE2E(r *rand.Rand, tier string, weird bool) *c19Case {
 	// ErrorHandler / Skipper, ContextKey, rules handed over as RegexRewrite
 	if !weird && r.Intn(8) == 0 {
 		c.Ctor = 1 // middleware.Proxy(balancer): DefaultProxyConfig is in force
-		c.Retry, c.Rules, gens = 0, nil, nil
+		c.Retry, c.Rules, gens, short = 0, nil, nil, 0
 	} else {
 		switch r.Intn(3) {
 		case 0:
@@ -1634,6 +1800,10 @@ func c19GenE2E(r *rand.Rand, tier string, weird bool) *c19Case {
 						rq.Want = []string{rq.URI}
 					}
 				}
+			} else if short != 0 && r.Intn(2*short) == 0 {
+				// aimed at the short-target rules (the expectation is filled in by c19FixShortWants)
+				rq.URI = c19GenShortTarget(r, short == 1)
+				rq.Want = []string{rq.URI}
 			} else if len(gens) > 0 && r.Intn(5) != 0 {
 				j := r.Intn(len(gens))
 				u, w := gens[j].gen(r)
@@ -1688,7 +1858,7 @@ func c19GenE2E(r *rand.Rand, tier string, weird bool) *c19Case {
 				// request target in absolute form
 				rq.Scheme = []string{"http", "http", "https"}[r.Intn(3)]
 				rq.Host = []string{"ex.test", "EX.test:8080", "127.0.0.1:80", "[::1]:9", "a-b.c", "api"}[r.Intn(6)]
-				if r.Intn(8) == 0 {
+				if r.Intn(8) == 0 || short != 0 && r.Intn(3) == 0 {
 					// no path at all: `GET http://host HTTP/1.1`, `GET http://host?x=1 HTTP/1.1` (the upstream is asked for `/`)
 					rq.URI = []string{"", "?x=1", "?"}[r.Intn(3)]
 					rq.Want, rq.Rule = []string{"/" + rq.URI}, 0
@@ -1715,6 +1885,7 @@ func c19GenE2E(r *rand.Rand, tier string, weird bool) *c19Case {
 			c.Steps = append(c.Steps, c19Step{K: 3, Req: rq})
 		}
 	}
+	c19FixShortWants(c)
 	return c
 }
 
